@@ -308,7 +308,7 @@ def run(pid, tier, seed, a, t0):
         return 1
     if undecided:
         return 2
-    if nprov == 0 and not P.get("allow_no_obligations"):
+    if nprov == 0 and not (P.get("allow_no_obligations") or P.get("allow_no_contracts")):
         print("CHECKER-ERROR no obligations generated for %s" % pid)
         return 3
     return 0
